@@ -205,7 +205,10 @@ def tsan_stage(check_id, st, seed, work, spec, log):
             cmd += [f"--{k}", str(v)]
         e = dict(os.environ)
         e.update(spec.get("env", {}))
+        # the workers end with process::exit while pool threads linger:
+        # thread-leak reports say nothing about races
         e["TSAN_OPTIONS"] = (f"halt_on_error=0 exitcode=0 "
+                             f"report_thread_leaks=0 "
                              f"log_path={w}/tsan second_deadlock_stack=1")
         e["KVH_REPLAY_DIR"] = os.environ.get("KVH_REPLAY_DIR",
                                              f"{VERIF}/replays")
